@@ -11,7 +11,7 @@ Bind : generated directories of well-formed PELs (distinct entry ids, adversaria
 import os
 import random
 
-from .. import dirrun, project, seams
+from .. import genpel, dirrun, project, seams
 
 ID = 'C08'
 LEVEL = 'model_checking'
@@ -84,6 +84,11 @@ def run_case(case):
     for e, nm in zip(eids, names):
         pel = dirrun.mk_pel(rng, e, plid=rng.choice([e, 0x50000001, rng.randrange(1, 0xFFFFFFFF)]),
                             sev=rng.choice(SEVS), flags=rng.choice(FLAGS), creator=rng.choice(['O', 'B', 'H']), lead=True)
+        r_ = rng.random()
+        if r_ < .08:
+            pel['secs'] = []                                    # the shortest log there is: the two headers, count 2
+        elif r_ < .12:
+            pel['secs'] = [s for s in pel['secs'] if s['kind'] != 'SRC'] or [genpel.gen_mt(rng)]   # sections, but no SRC
         data = bytes(__import__('harness.encode', fromlist=['encode']).encode(pel))
         files.append((nm, data))
         fattrs.append(dirrun.attrs(pel, nm, data))
